@@ -990,7 +990,7 @@ pub fn generate(seed: u64, case: u64, max_steps: usize) -> Ran {
         voters.push((Arg::Id(ids[k]), wgt));
     }
     // a history near the 64-bit edge of the weights (sums that overflow, thresholds on huge totals)
-    let big = r.chance(1, 8);
+    let big = r.chance(1, 6);
     if big {
         for v in voters.iter_mut() {
             v.1 = match r.below(6) {
@@ -1097,7 +1097,7 @@ pub fn generate(seed: u64, case: u64, max_steps: usize) -> Ran {
         let kind = r.below(100);
         let step = if let Some(st) = pending.pop_front() {
             st
-        } else if flex && kind < 8 {
+        } else if flex && kind < (if big { 20 } else { 8 }) {
             let mut add = vec![];
             for _ in 0..r.below(3) {
                 add.push((r.below(n as u64) as usize, if big && r.chance(1, 2) { [u64::MAX - 3, u64::MAX / 2, 1u64 << 62, 5][r.below(4) as usize] } else { 1 + r.below(12) }));
@@ -1262,7 +1262,7 @@ pub fn generate(seed: u64, case: u64, max_steps: usize) -> Ran {
                         && (r.chance(1, if matches!(ran.trace.init.threshold, Thr::Quorum(..)) && matches!(&deposit, Some(d) if !d.refund) {
                             1 // the one configuration in which a proposal can pass by the end of its period alone and keep its deposit
                         } else if matches!(ran.trace.init.threshold, Thr::Quorum(..)) || matches!(&deposit, Some(d) if !d.refund) {
-                            3
+                            2
                         } else {
                             5
                         }) || (voters.iter().any(|(a, wt)| *a == Arg::Id(new_prop.unwrap().1) && *wt == 0) && r.chance(1, 2))) =>
@@ -1274,7 +1274,7 @@ pub fn generate(seed: u64, case: u64, max_steps: usize) -> Ran {
                         2
                     } else if matches!(&deposit, Some(d) if !d.refund) && r.chance(if matches!(ran.trace.init.threshold, Thr::Quorum(..)) { 3 } else { 1 }, 4) {
                         4 // with deposits kept from failed proposals: a proposal that passes only when the period ends
-                    } else if matches!(ran.trace.init.threshold, Thr::Quorum(..)) && r.chance(1, 2) {
+                    } else if matches!(ran.trace.init.threshold, Thr::Quorum(..)) && r.chance(3, 5) {
                         3
                     } else {
                         r.below(5) // 4: only the first half of the members vote (Yes): decided only when the period ends
